@@ -31,7 +31,7 @@ EXPLANATION = (
     'occur in mirrored white/black pairs.'
     ' (6) PGN scanner look-ahead: every character read is appended, matched as a delimiter, skipped as white space or handed back before the next read / the return.'
     ' Added later; the UCI promotion suffix of both printers is obtained by interpreting them per promotion code (fall-through and table look-up forms included).'
-    ' Added later; (8) in every token-reading loop of the PGN parser the arm that recognises END has no path back to the loop header. (9) the castling text of the short / long form is printed for exactly the king\'s two-square moves from home (all 64 x 64 x 12 from/to/piece). (10) readFEN bounds the men per side by 16, which the unchecked 256-entry MoveList relies on - found and fixed defect D18.')
+    ' Added later; (8) in every token-reading loop of the PGN parser the arm that recognises END has no path back to the loop header. (9) the castling text of the short / long form is printed for exactly the king\'s two-square moves from home (all 64 x 64 x 12 from/to/piece). (10) readFEN bounds the men per side by 16, which the unchecked 256-entry MoveList relies on - found and fixed defect D18. (11) the disambiguation scan of moveToString visits every index of the legal-move list (sizes 0..8 evaluated).')
 UNDECIDED = ('uniqueness of short move forms, round-trip equality of values, robustness against every byte string (needs execution); '
              'PGN tree round trip beyond the scanner look-ahead discipline of clause 6.')
 ASSUMPTIONS = ['char is an 8-bit type; the piece enumerators are those of Piece::Type',
@@ -55,6 +55,7 @@ def run(fb, rep, tier):
     c8_end_token_leaves_loops(fb, rep)
     c9_castle_text(fb, rep)
     c10_men_per_side_bounded(fb, rep)
+    c11_disambiguation_scan(fb, rep)
 
 
 PIECES = ['WKING', 'WQUEEN', 'WROOK', 'WBISHOP', 'WKNIGHT', 'WPAWN', 'BKING', 'BQUEEN', 'BROOK', 'BBISHOP', 'BKNIGHT', 'BPAWN']
@@ -918,3 +919,92 @@ def c10_men_per_side_bounded(fb, rep):
     ok = n_sides >= 2 and all(v <= 16 for v in found.values())
     rep.ob(clause, 'K12 range', 'readFEN rejects a side with more than 16 men before it returns a position (MoveList holds %d moves unchecked)' % cap, ok, f.where,
            'upper bounds that hold at every normal return: %s' % found, f.sname)
+
+
+# ----------------------------------------------------------------------------- .11
+
+def c11_disambiguation_scan(fb, rep):
+    """K12 the scan that decides the file / rank disambiguation of the short form.  Two legal moves of like pieces to one square
+    get different texts only if the printer sees both when it counts the candidates: the loop over the legal move list that
+    it is given must visit every index 0 .. size-1 (it may stop early only at an empty sentinel move).  The loop's own
+    init / bound / step and the index expression are evaluated for list sizes 0..8."""
+    clause = 'C17.11'
+    cands = [f for f in fb.funcs.values() if f.has_cfg and f.sname.split('::')[-1] == 'moveToString' and len(f.d.get('params', [])) == 4 and len(f.blocks) > 20]
+    f = cands[0] if len(cands) == 1 else None
+    if rep.need(clause, f, 'the short/long form printer moveToString(pos, move, longForm, moves)') is None:
+        return
+    lists = [p_['id'] for p_ in f.d['params'] if 'MoveList' in (p_.get('t') or '')]
+    if rep.need(clause, lists, 'the legal-move list parameter') is None:
+        return
+    lid = lists[0]
+    decls = {v['id']: v for _, _, e in f.events() if e.get('k') == 'decl' for v in e.get('vars', [])}
+    loops = f.natural_loops()
+
+    def ev(t, env, depth=0):
+        t = _strip(t)
+        if not isinstance(t, dict) or depth > 8:
+            return None
+        if 'cv' in t:
+            return t['cv']
+        if t.get('k') == 'mem' and (t.get('f') or '').endswith('::size') and (_strip(t.get('b')) or {}).get('id') == lid:
+            return env['n']
+        if t.get('k') == 'var':
+            if t.get('id') in env:
+                return env[t['id']]
+            d = decls.get(t.get('id'))
+            return ev(d['init'], env, depth + 1) if d is not None and d.get('init') is not None and t.get('id') not in env.get('counters', ()) else None
+        if t.get('k') == 'bin':
+            a, b = ev(t.get('l'), env, depth + 1), ev(t.get('r'), env, depth + 1)
+            if a is None or b is None:
+                return None
+            return {'+': a + b, '-': a - b, '<': a < b, '<=': a <= b, '>': a > b, '>=': a >= b, '!=': a != b, '==': a == b}.get(t.get('op'))
+        return None
+    n_scans = 0
+    for h, body in sorted(loops.items()):
+        idx = None
+        for b in body:
+            for e in f.blocks[b]['ev']:
+                for n in walk(e):
+                    if isinstance(n, dict) and n.get('k') == 'call' and n.get('op') == '[]' and (_strip(n.get('recv')) or {}).get('id') == lid and n.get('args'):
+                        idx = n['args'][0]
+        def has_access(blocks):
+            return any(isinstance(n, dict) and n.get('k') == 'call' and n.get('op') == '[]' and (_strip(n.get('recv')) or {}).get('id') == lid
+                       for b in blocks for e in f.blocks[b]['ev'] for n in walk(e))
+        # the innermost loop around the access is the scan
+        if idx is None or any(o != h and loops[o] < body and has_access(loops[o]) for o in loops):
+            continue
+        steps = {}
+        for b in body:
+            for e in f.blocks[b]['ev']:
+                if e.get('k') == 'incdec' and (_strip(e.get('e')) or {}).get('k') == 'var':
+                    steps.setdefault(_strip(e['e'])['id'], []).append(1 if e.get('op') == '++' else -1)
+        cond = (f.blocks[h].get('term') or {}).get('cond')
+        ctr = [v for v in steps if any(isinstance(n, dict) and n.get('k') == 'var' and n.get('id') == v for n in walk(cond))]
+        if len(ctr) != 1 or len(steps[ctr[0]]) != 1 or cond is None:
+            rep.broken(clause, 'a loop over the legal-move list in moveToString is not a counted loop')
+            return
+        vid, step = ctr[0], steps[ctr[0]][0]
+        n_scans += 1
+        bad = []
+        for n in range(0, 9):
+            x = ev(decls[vid].get('init'), {'n': n, 'counters': (vid,)}) if vid in decls else None
+            seq = []
+            for _ in range(40):
+                if x is None:
+                    break
+                c = ev(cond, {'n': n, vid: x, 'counters': (vid,)})
+                if c is None:
+                    x = None
+                    break
+                if not c:
+                    break
+                seq.append(ev(idx, {'n': n, vid: x, 'counters': (vid,)}))
+                x += step
+            if x is None or None in seq:
+                rep.broken(clause, 'the scan of the legal-move list is not evaluable for size %d' % n)
+                return
+            if sorted(seq) != list(range(n)):
+                bad.append('size %d: visits %s' % (n, seq))
+        rep.ob(clause, 'K12 finite evaluation', 'moveToString: scan #%d of the legal-move list visits every index 0..size-1 (sizes 0..8)' % n_scans, not bad,
+               '%s:%s' % (f.file, (f.blocks[h].get('term') or {}).get('ln')), '; '.join(bad[:3]) or 'all sizes covered', f.sname)
+    rep.floor(clause, 'scans of the legal-move list in moveToString', n_scans, 1)
